@@ -396,7 +396,8 @@ func (k *Kernel) choose(acts []Action) int {
 				pref = append(pref, i)
 			}
 		}
-		if len(pref) == 0 || c%32 == 31 {
+		// "window" starves strictly (the starved actions run only when nothing else can); "starve" leaks 1 step in 32
+		if len(pref) == 0 || (k.Sched.Policy == "starve" && c%32 == 31) {
 			pref = eager
 		}
 		return pick(pref, c>>5)
